@@ -15,6 +15,7 @@
 -/
 import SpgProofs.Lemmas.Strings
 import Spg.Generated.Facts
+import SpgProofs.Lemmas.FactPreds
 namespace Spg.C07
 open Spg
 
@@ -205,14 +206,12 @@ theorem entropyD_eq_card :
     rw [this, strings_length]; simp [CharRecipe.total, CharRecipe.size]
   · exact recipe_count_eq_card cfg r
 
-/-- "The same value on every call": the count is a function of the recipe (above), and the library
+/-- `Entropy()` is a function of the recipe alone in the code as well as in the model: the package
 keeps no state in which an earlier evaluation could be remembered — its package-level variables
-are the shipped data and configuration only. A memo table or cache would show up here. -/
-theorem no_memo_state :
-    Generated.Facts.packageVars.map (·.1) =
-      ["AgileSyllables", "AgileWords", "MaxFailRate", "MaxTrials", "SFDigits1", "SFDigits2",
-       "SFDigitsNoAmbiguous1", "SFDigitsNoAmbiguous2", "SFDigitsSymbols", "SFNone", "SFSymbols",
-       "charTypeByFlag", "charTypeNamesByFlag"] := by decide
+are plain shipped data and configuration, never assigned, and the presets. A memo table or cache
+(a `sync.Map`, a map that is written) falsifies this. -/
+theorem no_memo_state : FactPreds.packageStateOK = true ∧
+    (Generated.Facts.sharedWrites.filter fun w => w.2.2 == "pkgvar") = [] := by decide
 
 /-! ### History: the count before the repair -/
 namespace History
